@@ -453,7 +453,7 @@ def name_routes(labels, rng_pick):
     makers = [lambda: SubName(labels), lambda: dns.name.Name(tuple(labels)), lambda: dns.name.Name(x for x in labels),
               lambda: pickle.loads(pickle.dumps(N)), lambda: copy.deepcopy(N), lambda: pickle.loads(pickle.dumps(SubName(labels))),
               lambda: dns.name.from_text(N.to_text(), None),
-              lambda: (dns.name.from_wire(N.to_wire(), 0)[0] if is_abs(labels) else N.derelativize(dns.name.root).relativize(dns.name.root)),
+              lambda: (dns.name.from_wire(N.to_wire(), 0)[0] if is_abs(labels) else dns.name.Name(N[:])),
               lambda: dns.name.Name([l.decode("latin-1").encode("latin-1") for l in labels])]
     return makers[rng_pick % len(makers)]()
 
